@@ -131,10 +131,18 @@ CLAIMED = {
    text="TLC enumerates every operation history up to the bound over calls with arguments [equality class, detail], deep mutation of an earlier call's result and input, and cache clearing, and checks history-freedom of the reference memo (and that a detail-blind key or a shared result object violates it). Each emitted history is instantiated in 13 concrete families (union member orders at root and nested, equal instants with different offsets, text carriers, bare containers, 1/1.0/True, same-named classes, string references from two modules, recursive types, codec configurations, dateparse targets), executed in a fresh fork, and every call's outcome is compared by TLC with the outcome of the same call alone in another fresh fork of a zygote that never called the library; inputs must stay unmutated and earlier results unaffected.",
    ref="DESIGN.md section 4 C12",
    note="Trusted: TLC; os.fork of a zygote as 'cold process'; term projection. Histories of length 4 (quick, 220 sampled per family) / 5 (thorough, all)."),
+ "C04": dict(
+   engine="Scalars",
+   technique="TLA+ spec Scalars.tla (routing law table, ISO-8601 duration token algebra model-checked by TLC over a boundary grid); real scalar parse/emit events over boundary + seeded Hypothesis values in 5 carriers under two time zones with warmed memos, validated by TLC trace spec Scalars_Trace.tla against standard-library facts",
+   level="exploration",
+   text="TLC checks the duration algebra (the writer's token form means exactly the timedelta triple, negation is involutive, well-formedness condition) on a boundary grid and the trace spec applies Law(K, input kind) to every observed call. For each scalar kind, boundary values and seeded random values are printed with Python's own printer and parsed back through the real unmarshal in five carriers; marshalling must emit that very text and the standard library's own parser must read it back; durations are tokenised by an independent regex and judged by Meaning/WellFormed in TLA+; numbers are read as UTC epoch seconds against datetime.fromtimestamp and temporals converted to int/float/str/bytes; half the values run after the memos were warmed with an equal-but-different twin; everything runs under TZ=UTC and TZ=XXX-5:30. Infinite scalar domains are sampled, hence exploration.",
+   ref="DESIGN.md section 4 C04",
+   note="Trusted: TLC; Python's str()/isoformat()/fromisoformat()/Decimal/Fraction/UUID parsers as oracle; the regex duration tokenizer. time -> number (depends on today's date) is not asserted."),
 }
 NOT_BUILT = "check not built yet (build in progress; see DESIGN.md section 7 build order)"
 
 ENGINES = {
+ "Scalars": dict(path="spec/Scalars.tla", kind="TLA+ spec + TLC (duration algebra, trace validation) + hypothesis-driven harness/drivers/c04.py"),
  "Caches": dict(path="spec/Caches.tla", kind="TLA+ spec + TLC (exhaustive histories, emission, trace validation) + harness/zygote.py + harness/drivers/c12.py"),
  "Codec": dict(path="spec/Codec.tla", kind="TLA+ spec + TLC (exhaustive histories, trace validation) + harness/drivers/c02.py"),
  "Carriers": dict(path="spec/Carriers.tla", kind="TLA+ spec + TLC (exhaustive histories, trace validation) + harness/drivers/c14.py"),
